@@ -150,9 +150,11 @@ pub mod proofs {
             let r = ok(unsafe { register(SB, || hit(5)) });
             core::mem::forget(r);
         }
+        let r0 = vshim::round();
         vshim::thread_start(1);
+        vshim::sys_point(); // the kernel picks its moment
         deliver(SA);
-        let ops = vshim::max_delivery_ops();
+        let r1 = vshim::round();
         after_delivery_checks();
         crate::lr_verdict!(
             "C03",
@@ -163,7 +165,8 @@ pub mod proofs {
             (E_OPS, "a delivery took more steps than two read sections and its actions need"),
             (E_MAY_BLOCK, "a built-in action wrote to its pipe in a way that can block"),
         );
-        kani::cover!(ops >= 9 && which, "delivery overlapped an unregister");
+        kani::cover!(which && r0 >= 1 && r1 >= 1 && vshim::consistent(), "delivery overlapped an unregister (both threads ran in more than one round)");
+        kani::cover!(!which && r0 >= 1 && r1 >= 1 && vshim::consistent(), "delivery overlapped a register of another signal");
         core::mem::forget(f);
     }
 }
